@@ -1,0 +1,13 @@
+//go:build verif
+
+package filecache
+
+// VerifHook is a gate: it is called outside of any lock and may block the
+// calling goroutine. It is installed by the verification harness only.
+var VerifHook func(point string, fileName string)
+
+func verifPoint(point string, fileName string) {
+	if h := VerifHook; h != nil {
+		h(point, fileName)
+	}
+}
